@@ -143,7 +143,30 @@ def with_defaults(rng, base, idx):
         new = ["/"] + new
     if rng.random() < 0.5:
         new = new[:1] + [["L", rng.choice(["all", "idx"])]] + (["/"] if len(new) > 1 and new[1] != "/" else []) + new[1:]
-    r = mk_rule(new, endpoint=base["endpoint"], methods=base["methods"], defaults={name: default_value_for(rng, conv)})
+    defaults = {name: default_value_for(rng, conv)}
+    shape = rng.random()
+    if shape < 0.3:
+        # the defaults rule carries one or two extra default-only arguments: its argument set is a
+        # strict superset of the variable rule's, so it does NOT provide defaults for it (no redirect)
+        for k in rng.sample(["order", "lang", "fmt"], rng.choice([1, 2])):
+            defaults[k] = rng.choice([["s", "date"], ["i", 0], ["s", "é"]])
+    elif shape < 0.45:
+        # the reverse: the variable rule keeps a converter argument the defaults rule lacks (its
+        # argument set is a strict subset): drop a second variable segment without giving a default
+        var2 = [k for k, t in enumerate(new) if t != "/" and t[0] == "V"]
+        if var2:
+            k = rng.choice(var2)
+            a = k
+            while a > 0 and new[a - 1] != "/":
+                a -= 1
+            b = k
+            while b + 1 < len(new) and new[b + 1] != "/":
+                b += 1
+            cut = new[: max(a - 1, 0)] + new[b + 1 :]
+            new = cut if cut and cut[0] == "/" else ["/"] + cut
+            if new == ["/"] or rng.random() < 0.5:
+                new = ["/", ["L", "sub"]] + (new if new != ["/"] else ["/"])
+    r = mk_rule(new, endpoint=base["endpoint"], methods=base["methods"], defaults=defaults)
     return r
 
 
@@ -188,6 +211,13 @@ class RedirectStream(Stream):
     corpus = [
         # documented defaults redirect
         {"cfg": mk_cfg(), "rules": [mk_rule(toks_of("/all/"), "all", defaults={"page": ["i", 1]}), mk_rule(toks_of("/all/page/<int:page>"), "all")], "adapter": mk_adapter(), "qa": ["t", "x=1"], "probes": [["/all/page/1", "GET"], ["/all/page/2", "GET"], ["/all", "GET"], ["/all/page/1/", "GET"]]},
+        # argument sets must be EQUAL for a defaults redirect: a defaults rule with extra default-only
+        # arguments (or fewer arguments) leaves the variable rule alone
+        {"cfg": mk_cfg(), "rules": [mk_rule(toks_of("/articles/"), "art", defaults={"page": ["i", 1], "order": ["s", "date"]}), mk_rule(toks_of("/articles/page/<int:page>"), "art")], "adapter": mk_adapter(), "qa": None, "probes": [["/articles/page/1", "GET"], ["/articles/", "GET"], ["/articles/page/2", "GET"]]},
+        {"cfg": mk_cfg(), "rules": [mk_rule(toks_of("/list/"), "l", defaults={"page": ["i", 1]}), mk_rule(toks_of("/list/<string:lang>/page/<int:page>"), "l")], "adapter": mk_adapter(), "qa": None, "probes": [["/list/en/page/1", "GET"], ["/list/", "GET"]]},
+        # F12c (known finding): the alias redirect goes through build(), which prefers the rule with more
+        # arguments - here the defaults rule with an extra default-only argument
+        {"cfg": mk_cfg(), "rules": [mk_rule(toks_of("/a/<any(a, b):n>/"), "e"), mk_rule(toks_of("/idx/"), "e", defaults={"n": ["s", "b"], "fmt": ["i", 0]}), mk_rule(toks_of("/alt/a/<any(a, b):n>/"), "e", alias=True)], "adapter": mk_adapter(), "qa": None, "probes": [["/alt/a/b/", "GET"], ["/a/b/", "GET"], ["/alt/a/a/", "GET"]]},
         # alias
         {"cfg": mk_cfg(), "rules": [mk_rule(toks_of("/users/<int:id>"), "u"), mk_rule(toks_of("/people/<int:id>"), "u", alias=True)], "adapter": mk_adapter(script="/app"), "qa": ["p", [["a", "b c"]]], "probes": [["/people/7", "GET"], ["/users/7", "GET"]]},
         # hostile first segments
@@ -306,7 +336,7 @@ class RedirectStream(Stream):
             out = real_match(a, robjs, path, probe[1], qa=None)
             if out.startswith("M "):
                 _, idx, ep, vals = out.split(" ")
-                return ep, vals
+                return ep, vals, int(idx)
             if not out.startswith("R "):
                 return None
             nxt = hop_target(cfg, case["adapter"], bytes.fromhex(out[2:]).decode().split("?")[0])
@@ -413,7 +443,16 @@ class RedirectStream(Stream):
                 # -0.0 == 0.0 in Python (a default of 0.0 canonicalises -0.0)
                 nz = lambda v: v.replace("=f2d302e30", "=f302e30")  # noqa: E731
                 if (ep, nz(vals)) != (orig[0], nz(orig[1])):
-                    res.append((f"after the redirect the request denotes endpoint {bytes.fromhex(ep).decode()!r} {vals}, the original path denotes {bytes.fromhex(orig[0]).decode()!r} {orig[1]}", None))
+                    fam = None
+                    # F12c: the original path is matched by an ALIAS rule and build() canonicalises it to
+                    # a rule of the endpoint that carries extra default-only arguments
+                    frule = case["rules"][int(final.split(" ")[1])]
+                    have = set(orig[1].split(",")) if orig[1] != "[]" else set()
+                    got = set(nz(vals).split(",")) if vals != "[]" else set()
+                    extra = {kv.split("=")[0] for kv in got - {nz(x) for x in have}}
+                    if case["rules"][orig[2]]["alias"] and ep == orig[0] and {nz(x) for x in have} <= got and extra and extra <= {hs(k) for k in frule["defaults"]}:
+                        fam = "F12c"
+                    res.append((f"after the redirect the request denotes endpoint {bytes.fromhex(ep).decode()!r} {vals}, the original path denotes {bytes.fromhex(orig[0]).decode()!r} {orig[1]}", fam))
             # "without a further redirect of the same kind": a slash redirect directly followed by another
             kinds = []
             path = probe[0]
@@ -457,6 +496,8 @@ class RedirectStream(Stream):
             return "F12a"  # the C12 face of F03c
         if what.endswith(" [F12b]"):
             return "F12b"
+        if what.endswith(" [F12c]"):
+            return "F12c"
         return None
 
     def nontrivial(self, case, real_out):
@@ -490,6 +531,8 @@ CHECK = Check(
         "alias rules are claimed only with a canonical (non-alias) rule of the same endpoint, arguments, methods and protocol (the documented meaning of alias=True); an alias without one redirects to itself forever - the `assert url != path` in make_alias_redirect_url compares the URL with 'domain|path' and can never fire (observed, application error)",
         "oracle item 'final endpoint / arguments equal the original's' is asserted when the map does not itself leave the visited paths ambiguous (no path of the chain admitted by two rules): with overlapping rules what a canonical URL denotes is decided by rule priority (C03), not by the redirect",
         "known finding F12a (C12 face of F03c): the slash / merged-slashes redirect is decided before to_python validates the value, so its target can be NotFound",
+        "known finding F12c: the alias redirect canonicalises through build(), which may select a rule of the endpoint with extra default-only arguments (no equal-arguments guard, unlike get_default_redirect); witness alias_redirect_adds_default_arguments",
+        "defaults siblings are generated with equal argument sets (redirect expected), with one or two extra default-only arguments and with fewer arguments than the variable rule (no redirect expected: provides_defaults_for demands equal sets); the oracle compares the end of the chain with what the path denotes when redirect_defaults is off",
         "known finding F12b: a rule that keeps an empty segment after werkzeug's pairwise slash merging ('/a///' -> '/a//') next to a variable rule yields two consecutive slash redirects (negation witness slash_redirect_converges_full_false)",
         "slash_redirect_converges is proved in two partial forms: the target is directly admitted by the rule that asked for the slash and re-matching it is not None (slash_redirect_converges_partial); on maps none of whose rules keeps an empty segment in the middle the re-match is a found rule, never a second slash redirect (slash_redirect_converges_partial2; F12b shows the hypothesis is needed). That the found rule has the endpoint / values 'the original would have' rests on C03.match_sound / match_priority. defaults_redirect_converges is proved in a partial form (defaults_redirect_converges_partial: the target is the canonical rule's own URL for the same endpoint and Python-equal arguments; given that this rule's URLs match back - C04.match_build_partial on non-overlapping maps - the re-match denotes the same endpoint and arguments); that no second defaults redirect follows, and the alias redirect, are covered by the stream only",
     ],
@@ -500,7 +543,7 @@ CHECK = Check(
 
 MANIFEST = {
     "level_text": "Machine-checked Lean 4 theorems about the model of MapAdapter.match's redirects: every router redirect (slash, merged slashes, defaults, alias) is, character for character, bound scheme + '://' + get_host(None or the canonical rule's own subdomain) + script root + a path not starting with '/' + exactly the request's query (redirect_on_bound_host, slash_redirect_on_bound_host incl. the character set quote can emit, by decide over all 256 bytes); the target of a slash redirect is directly admitted by the rule that asked for it and the target of a merged-slashes redirect re-matches to the same rule without another redirect. The model is tied to the code by a differential stream that follows redirects to a fixpoint; the property oracle runs on the real code.",
-    "level_note": "Trusted: Lean kernel; extract.py; harness; CPython urllib.parse (modelled, stream-validated). Partial: the full-strength exclusion of a second consecutive slash redirect is false (F12b, negation witness proved) and is proved under the no-empty-middle-segment hypothesis; defaults_redirect_converges is proved in a partial form (same endpoint / arguments after the re-match, given C04.match_build_partial for the canonical rule); absence of a second defaults redirect and the alias redirect are stream-covered only. BoundOK excludes host_matching. Known findings F12a, F12b.",
+    "level_note": "Trusted: Lean kernel; extract.py; harness; CPython urllib.parse (modelled, stream-validated). Partial: the full-strength exclusion of a second consecutive slash redirect is false (F12b, negation witness proved) and is proved under the no-empty-middle-segment hypothesis; defaults_redirect_converges is proved in a partial form (same endpoint / arguments after the re-match, given C04.match_build_partial for the canonical rule); absence of a second defaults redirect and the alias redirect are stream-covered only. BoundOK excludes host_matching. Known findings F12a, F12b, F12c.",
     "technique": "Lean 4 proof (list reasoning over the URL assembly, decide +kernel over all bytes for quote, reuse of the C03 matcher lemmas) + model/code correspondence",
     "design_ref": "DESIGN.md section 4, C12",
 }
